@@ -153,6 +153,18 @@ class DbInfo(object):
         # equation is not balanced and that has no -mole_balance (10 polysulfide species of minteq.v4.dat) the text has two
         # readings ("stoichiometry from the chemical equation" vs. the name); the oracle accepts the sum under either.
         self.alt_elements = self._alt_stoichiometry()
+        # known finding (tidy.cpp tidy_species: "next_secondary[j].coef /= master_ptr->coef" is applied again at every re-tidy):
+        # a SOLUTION_SPECIES / PHASES / ... block in a RUN input makes the engine tidy the species a second time, which divides
+        # the -mole_balance coefficients once more by the number of atoms in the element's master species (iso.dat: D -> D2O,
+        # T -> T2O).  Databases with such species get their additions only as a correction block in the database text.
+        self.retidy_sensitive = False
+        for tab in (db.species, db.exchange_species, db.surface_species):
+            for sp in tab.values():
+                for k in (sp.mb_elements or {}):
+                    m = db.master.get(k) or db.master.get(dbparse.base_element(k))
+                    if m is not None and m.species in db.species:
+                        if abs(db.species[m.species].elements.get(m.base, 1.0) - 1.0) > 1e-9:
+                            self.retidy_sensitive = True
         # master species that contain an element other than their own (+H, O): Thermoddem "N(-5) CN-", iso.dat "[15N](0) N[15N]".
         # The engine books such a species (and everything built from it) under its own element only, so species with the
         # foreign element exist although that element was never entered and its reported total does not count them: the
@@ -608,8 +620,12 @@ def defs_st(draw, inf, base_els):
         text += "SOLUTION_SPECIES\n" + "\n".join(sp_lines) + "\n"
     if ph_lines:
         text += "PHASES\n" + "\n".join(ph_lines) + "\n"
-    return {"mode": draw(st.sampled_from(["input", "input", "dbstring"])), "text": text, "phases": phases,
-            "redefined": redefined, "new": new}
+    mode = draw(st.sampled_from(["input", "input", "dbstring"]))
+    if inf.retidy_sensitive:
+        if database_text(inf.name)[1]:
+            return None                   # (no shipped database gets here)
+        mode = "dbstring"                 # excluded by construction: blocks in the run input (known finding, see DbInfo)
+    return {"mode": mode, "text": text, "phases": phases, "redefined": redefined, "new": new}
 
 
 @st.composite
@@ -904,6 +920,8 @@ def stale_rows(log):
 def check_case(case, ctx):
     inf = info_for(case)
     db = inf.db
+    if inf.retidy_sensitive and additions_in_input(case) and not case.get("assert_retidy"):
+        raise Discard("excluded:additions_in_run_input_on_retidy_sensitive_database")      # never generated
     text, items, meta = build_input(inf, case)
     try:
         I = load_instance(case)
@@ -980,6 +998,8 @@ def check_case(case, ctx):
                 opts.append("defs:redefinition_drops_analytic_expression")
         if dd.get("new"):
             opts.append("defs:new_species_or_phase")
+        if inf.retidy_sensitive:
+            opts.append("defs:correction_block_only(run-input_blocks_excluded:re-tidy_known_finding)")
     nt = nel >= 3 and stats["eq"] >= 10 and bool(opts)
     classes = ["db=" + case["db"], "elements=%d" % min(nel, 9)] + ["opt=" + o for o in opts]
     if stats["redox_skipped"]:
@@ -1234,6 +1254,10 @@ def sweep_cases(dbn):
 
 def run(ctx):
     dbs = DATABASES + THOROUGH_EXTRA if ctx.tier == "thorough" else DATABASES
+    only = [x for x in os.environ.get("VERIF_C01_DBS", "").split(",") if x]      # dedicated stress runs only (not a normal run)
+    if only:
+        dbs = [(d, 1) for d in only]
+        ctx.event("STRESS-RUN:databases=" + "+".join(only))
     ctx.hyp(case_st(dbs), lambda c: check_case(c, ctx), BUDGET[ctx.tier], "solutions")
     if ctx.tier == "thorough":
         # deterministic species sweep: one database per shard (so that the per-database coverage count is exact)
